@@ -350,6 +350,15 @@ func join(hd []byte, ps [][]byte) []byte {
 
 func apply(sc *scenario, m manip, st []byte, rng *rand.Rand) []byte {
 	hd, ps := pieces(sc, st)
+	// A manipulation planned for the stream the model expects may not fit the stream the real code produced
+	// (that difference is reported at the Write/Close events): then the stream is left as it is.
+	switch {
+	case m.Kind == "alter" && m.At >= len(st),
+		(m.Kind == "drop" || m.Kind == "dup") && m.I >= len(ps),
+		m.Kind == "dup" && m.J > len(ps),
+		m.Kind == "perm" && len(m.Perm) != len(ps):
+		return append([]byte{}, st...)
+	}
 	switch m.Kind {
 	case "none", "aad":
 		return append([]byte{}, st...)
@@ -460,7 +469,9 @@ func (x *runner) run(sc scenario) {
 			}
 		case "Write":
 			if w == nil || wpos+o.N > len(pt) {
-				vt.Fatal("scenario not executable: Write(%d) at %d of %d", o.N, wpos, len(pt))
+				// the real code consumed more than the plan foresaw (reported at that Write): give up on this scenario
+				x.tw.Emit(vt.Ev{"ev": "abort", "why": "Write not executable"})
+				return
 			}
 			var n int
 			var err error
